@@ -127,5 +127,11 @@ func (pc *PersistedClock) Write() error {
 		return err
 	}
 
-	return pc.root.Rename(f.Name(), pc.filePath)
+	err = pc.root.Rename(f.Name(), pc.filePath)
+	if err != nil {
+		_ = pc.root.Remove(f.Name())
+		return err
+	}
+
+	return nil
 }
